@@ -72,7 +72,11 @@ func Mv(r *Root, src, dst string) error {
 		return err
 	}
 
-	if srcDir.name == dstDir.name && srcFname == dstFname {
+	// Moving an entry onto itself: nothing to remove. Compare the full paths of
+	// the two directories, not just their names: directories with the same
+	// name under different parents (/a/x and /b/x) are different directories,
+	// and the source entry must be unlinked.
+	if srcDir.Path() == dstDir.Path() && srcFname == dstFname {
 		return nil
 	}
 
